@@ -1,6 +1,7 @@
 (* Proofs/RedactorCollect.v — every secret of the opened environment that can reach the command is handed to the
    output filter, hence (Proofs/RedactorProps.v) never forwarded. *)
-From Verif Require Import Base.Bytes Model.Redactor Model.RedactorCollect Proofs.RedactorBase Proofs.RedactorProps.
+From Verif Require Import Base.Bytes Model.Redactor Model.RedactorCollect Proofs.RedactorBase Proofs.RedactorStream
+  Proofs.RedactorFast Proofs.RedactorProps.
 From Coq Require Import Arith Lia.
 Local Open Scope nat_scope.
 
@@ -49,7 +50,7 @@ Qed.
    occurs in what esc forwards of the command's output *)
 Theorem cmd_no_secret_survives : forall P deep root args script p,
   env_secret deep root args p ->
-  rp_min_len P <= length p -> has_inner_newline p = false -> indep (rp_placeholder P) p = true ->
+  rp_min_len P <= length p -> has_inner_newline p = false -> ph_clash (rp_placeholder P) p = false ->
   ~ occurs p (cmd_out P deep root args script).
 Proof.
   intros P deep root args script p Hs Hlen Hnl Hind. unfold cmd_out.
@@ -71,9 +72,67 @@ Proof.
   intros. unfold cmd_run. rewrite !run_is_emit. cbn [concat]. rewrite !app_nil_r. reflexivity.
 Qed.
 
+(* ---- the Write/Close state machine of the whole command, for EVERY chunking of what the child writes ---- *)
+Lemma concat_child_chunks : forall e chunks, concat (child_chunks e chunks) = child_wrote e (concat chunks).
+Proof. intros [| |] chunks; reflexivity. Qed.
+
+Lemma stream_forwarded_closed : forall ph pats chunks,
+  stream_forwarded ph pats true chunks =
+  (emit ph false (concat chunks) (stream_flags pats (concat chunks)), []).
+Proof.
+  intros ph pats chunks. unfold stream_forwarded.
+  pose proof (run_chunks_write_all ph pats chunks []) as H.
+  destruct (write_all ph pats [] chunks) as [o l]. destruct (close ph pats l) as [o' l'].
+  rewrite <- H. rewrite (surjective_pairing (run_chunks ph pats [] chunks)).
+  rewrite run_chunks_emit, run_chunks_buffer_empty. reflexivity.
+Qed.
+
+(* if the redactors are closed on every path: whatever the chunking of the child's writes and however the child ends,
+   each stream receives the output loop run over everything the child wrote to it, and no byte stays in a line buffer *)
+Theorem cmd_run_sm_streams : forall P deep root args e script script2 ch1 ch2,
+  concat ch1 = cmd_stream (cmd_args root args) script -> concat ch2 = script2 ->
+  let pats := new_replacer P (cmd_secrets deep root args) in
+  let ph := rp_placeholder P in
+  let w1 := child_wrote e (cmd_stream (cmd_args root args) script) in
+  let w2 := child_wrote e script2 in
+  cmd_run_sm P deep true root args e ch1 ch2 =
+    ((emit ph false w1 (stream_flags pats w1), []), (emit ph false w2 (stream_flags pats w2), []), child_failed e).
+Proof.
+  intros P deep root args e script script2 ch1 ch2 H1 H2. cbv zeta. unfold cmd_run_sm, closes. cbn [orb].
+  rewrite !stream_forwarded_closed, !concat_child_chunks, H1, H2. reflexivity.
+Qed.
+
+Lemma cmd_run_sm_streams_src : forall P deep ca, ca = true -> forall root args e script script2 ch1 ch2,
+  concat ch1 = cmd_stream (cmd_args root args) script -> concat ch2 = script2 ->
+  let pats := new_replacer P (cmd_secrets deep root args) in
+  let ph := rp_placeholder P in
+  let w1 := child_wrote e (cmd_stream (cmd_args root args) script) in
+  let w2 := child_wrote e script2 in
+  cmd_run_sm P deep ca root args e ch1 ch2 =
+    ((emit ph false w1 (stream_flags pats w1), []), (emit ph false w2 (stream_flags pats w2), []), child_failed e).
+Proof. intros P deep ca ->. apply cmd_run_sm_streams. Qed.
+
+(* the single-write abbreviation [cmd_run] the correspondence prints is that state machine, for every chunking *)
+Theorem cmd_run_sm_cmd_run : forall P deep root args e script script2 ch1 ch2,
+  concat ch1 = cmd_stream (cmd_args root args) script -> concat ch2 = script2 ->
+  let r := cmd_run_sm P deep true root args e ch1 ch2 in
+  cmd_run P deep root args e script script2 = (fst (fst (fst r)), fst (snd (fst r)), snd r).
+Proof.
+  intros P deep root args e script script2 ch1 ch2 H1 H2. cbv zeta.
+  rewrite (cmd_run_sm_streams P deep root args e script script2 ch1 ch2 H1 H2). cbn [fst snd].
+  apply cmd_run_streams.
+Qed.
+
+(* were Close reached only after a successful exec.Run (the seeded defect C13-d), a failing command's unterminated
+   last line would stay in the buffer: the hypothesis on the source is needed *)
+Lemma close_only_on_success_withholds : forall P,
+  let r := cmd_run_sm P true false (VObj false []) [] ChildFails [chars "fatal: no newline"] [] in
+  fst (fst (fst r)) = [] /\ snd (fst (fst r)) = chars "fatal: no newline".
+Proof. intros P. split; reflexivity. Qed.
+
 Theorem cmd_run_no_secret_survives : forall P deep root args e script script2 p,
   env_secret deep root args p ->
-  rp_min_len P <= length p -> has_inner_newline p = false -> indep (rp_placeholder P) p = true ->
+  rp_min_len P <= length p -> has_inner_newline p = false -> ph_clash (rp_placeholder P) p = false ->
   let r := cmd_run P deep root args e script script2 in
   ~ occurs p (fst (fst r)) /\ ~ occurs p (snd (fst r)).
 Proof.
@@ -83,7 +142,7 @@ Qed.
 
 Lemma cmd_run_no_secret_survives_src : forall P d, d = true -> forall root args e script script2 p,
   env_secret true root args p ->
-  rp_min_len P <= length p -> has_inner_newline p = false -> indep (rp_placeholder P) p = true ->
+  rp_min_len P <= length p -> has_inner_newline p = false -> ph_clash (rp_placeholder P) p = false ->
   let r := cmd_run P d root args e script script2 in
   ~ occurs p (fst (fst r)) /\ ~ occurs p (snd (fst r)).
 Proof. intros P d -> root args e script script2 p. apply cmd_run_no_secret_survives. Qed.
@@ -95,7 +154,7 @@ Proof. intros d -> root args p H. apply all_secrets_collected. exact H. Qed.
 
 Lemma cmd_no_secret_survives_src : forall P d, d = true -> forall root args script p,
   env_secret true root args p ->
-  rp_min_len P <= length p -> has_inner_newline p = false -> indep (rp_placeholder P) p = true ->
+  rp_min_len P <= length p -> has_inner_newline p = false -> ph_clash (rp_placeholder P) p = false ->
   ~ occurs p (cmd_out P d root args script).
 Proof. intros P d -> root args script p. apply cmd_no_secret_survives. Qed.
 
